@@ -175,9 +175,11 @@ class DaemonObject(object):
             raise errors.DaemonError("unknown object")
 
     def get_next_stream_item(self, streamId):
-        if streamId not in self.daemon.streaming_responses:
+        # (other threads - another connection's close_stream, the housekeeper, a disconnect - may remove the stream at any moment)
+        info = self.daemon.streaming_responses.get(streamId)
+        if info is None:
             raise errors.PyroError("item stream terminated")
-        client, timestamp, linger_timestamp, stream = self.daemon.streaming_responses[streamId]
+        client, timestamp, linger_timestamp, stream = info
         if client is None:
             # reset client connection association (can be None if proxy disconnected)
             self.daemon.streaming_responses[streamId] = (current_context.client, timestamp, 0, stream)
@@ -185,12 +187,11 @@ class DaemonObject(object):
             return next(stream)
         except Exception:
             # in case of error (or StopIteration!) the stream is removed
-            del self.daemon.streaming_responses[streamId]
+            self.daemon.streaming_responses.pop(streamId, None)
             raise
 
     def close_stream(self, streamId):
-        if streamId in self.daemon.streaming_responses:
-            del self.daemon.streaming_responses[streamId]
+        self.daemon.streaming_responses.pop(streamId, None)
 
 
 class Daemon(object):
@@ -542,7 +543,7 @@ class Daemon(object):
             for streamId in list(self.streaming_responses):
                 info = self.streaming_responses.get(streamId, None)
                 if info and info[0] is conn:
-                    del self.streaming_responses[streamId]
+                    self.streaming_responses.pop(streamId, None)
         self.clientDisconnect(conn)  # user overridable hook
 
     def _housekeeping(self):
@@ -560,7 +561,7 @@ class Daemon(object):
                         if info:
                             last_use_period = time.time() - info[1]
                             if 0 < config.ITER_STREAM_LIFETIME < last_use_period:
-                                del self.streaming_responses[streamId]
+                                self.streaming_responses.pop(streamId, None)
                 if config.ITER_STREAM_LINGER > 0:
                     # cleanup iter streams that are past their linger time
                     for streamId in list(self.streaming_responses.keys()):
@@ -568,7 +569,7 @@ class Daemon(object):
                         if info and info[2]:
                             linger_period = time.time() - info[2]
                             if linger_period > config.ITER_STREAM_LINGER:
-                                del self.streaming_responses[streamId]
+                                self.streaming_responses.pop(streamId, None)
             self.housekeeping()
 
     def housekeeping(self):
